@@ -165,6 +165,7 @@ class State:
         self.steps = 0
         self.init = {}
         self.entry_rsp = None
+        self.skip_stop = False
 
     def copy(self):
         s = State()
@@ -360,21 +361,30 @@ class Executor:
 
     @staticmethod
     def split_addr(a):
-        """simplified address -> (constant part, symbolic rest or None)"""
+        """simplified address -> (constant part, symbolic rest or None).  Handles  c + t…  and the form
+        Concat(c_hi, t_lo) that the simplifier produces when the low bits of the constant are zero."""
+        M = 2 ** 64 - 1
         if is_const(a):
             return cval(a), None
         if z3.is_app_of(a, z3.Z3_OP_BADD):
             c = 0
             rest = []
             for ch in a.children():
-                if is_const(ch):
-                    c = (c + cval(ch)) & (2 ** 64 - 1)
-                else:
-                    rest.append(ch)
+                c2, r2 = Executor.split_addr(ch)
+                c = (c + c2) & M
+                if r2 is not None:
+                    rest.append(r2)
+            if not rest:
+                return c, None
             r = rest[0]
             for x in rest[1:]:
                 r = r + x
             return c, r
+        if z3.is_app_of(a, z3.Z3_OP_CONCAT) and is_const(a.arg(0)) and cval(a.arg(0)) != 0:
+            hi = a.arg(0)
+            lo_bits = a.size() - hi.size()
+            lo = a.arg(1) if a.num_args() == 2 else z3.Concat(*[a.arg(i) for i in range(1, a.num_args())])
+            return (cval(hi) << lo_bits) & M, z3.ZeroExt(a.size() - lo_bits, lo)
         return 0, a
 
     def find_region(self, st, c, ins):
@@ -994,23 +1004,24 @@ class Executor:
         work = [st]
         done = []
         stop_at = set(stop_at)
+        st.skip_stop = True            # a run may start at a cut point (loop-head start)
         while work:
             s = work.pop()
-            first = True
             while True:
                 if s.pc is None:
                     done.append(s)
                     break
-                if s.pc in stop_at and not first:
+                if s.pc in stop_at and not s.skip_stop:
                     s.exit = "stop:%x" % s.pc
                     done.append(s)
                     break
-                first = False
                 if s.steps > self.max_steps:
                     raise Inconclusive("step limit exceeded")
                 if s.pc in self.prog.func_at and self.skip_go_prologue(s):
                     continue
                 succ = self.step(s)
+                for x in succ:
+                    x.skip_stop = False
                 self.states += len(succ)
                 if len(succ) == 1:
                     s = succ[0]
